@@ -345,6 +345,7 @@ class PathCtx:
     def must_hold(self, cond, label, describe=None):
         """proof obligation on this path: pc ⇒ cond.  Records a violation (with model) if not."""
         self.ex.stats.obligations += 1
+        cond = as_bool(cond) if not (cond is None or isinstance(cond, (list, tuple, str))) else bool(cond)     # python truthiness of plain values
         m = self.model_for(simp(z3.Not(cond)) if not isinstance(cond, bool) else (not cond))
         if m is None:
             self.ex.stats.discharged += 1
